@@ -101,13 +101,24 @@ def interior_search(ctx, shim, r, n):
 # ------------------------------------------------------------------------------------------------
 # shape level: HarfBuzz's verifier (cut at all unflagged cluster starts, re-shape, concatenate, compare)
 
-def metamorphic_search(ctx, shim, r, per_font, pc, pt, only_aat, name, verifier, flag_words, what, rule, fonts=None, kind="break"):
-    """shared driver of the break-safety (C03) and concat-redistribution (C04) experiments"""
-    fs = F.FontSet(r, limit=fonts, only_aat=only_aat)
+def metamorphic_search(ctx, shim, r, per_font, pc, pt, only_aat, name, verifier, flag_words, what, rule, fonts=None, kind="break",
+                       groups=None, make=None, classify=None):
+    """shared driver of the break-safety (C03) and concat-redistribution (C04) experiments.
+    groups / make / classify: font groups, shaping generator and finding-class function of a stream that does not draw
+    from the corpus (synthetic fonts: F.synth_groups, F.make_synth_shaping, F.synth_known_class)"""
+    if groups is None:
+        groups = F.FontSet(r, limit=fonts, only_aat=only_aat).groups
+    classify = classify or F.known_class
+
+    class fs: pass
+    fs.groups = groups
     sh = []
     for g in fs.groups:
         for k in range(per_font):
-            sh.append(F.make_shaping(r, g, r.choice(flag_words), repeats=(k % 8 == 7)))
+            if make:
+                sh.append(make(r, g, r.choice(flag_words), k))
+            else:
+                sh.append(F.make_shaping(r, g, r.choice(flag_words), repeats=(k % 8 == 7)))
     res = verifier(shim, sh)
     stat, bad, known = {}, [], {}
     cuts = 0
@@ -116,7 +127,7 @@ def metamorphic_search(ctx, shim, r, per_font, pc, pt, only_aat, name, verifier,
         if o["status"] in ("ok", "DIFF"):
             cuts += len(o["pieces"]) - 1
         if o["status"] == "DIFF":
-            cls = F.known_class(s, kind)
+            cls = classify(s, kind)
             if cls: known.setdefault(cls, []).append((len(s.text), s, o))
             else: bad.append((len(s.text), s, o))
         elif o["status"] in ("noresult", "piecefail"):
@@ -129,6 +140,8 @@ def metamorphic_search(ctx, shim, r, per_font, pc, pt, only_aat, name, verifier,
         if o["status"] == "DIFF":
             s, o = F.shrink(shim, s, verifier)
         rp = s.describe()
+        if s.g.get("synthetic"):
+            rp.update({"font_recipe": s.g["recipe"], "font_profile": s.g["profile"]})
         rp.update({"stage": "search", "stream": name, "pieces_text_ranges": o.get("pieces"),
                    "piece_requests": o.get("piece_requests"), "whole": F.fmt_glyphs(o.get("whole") or []),
                    "pieces_reassembled": F.fmt_glyphs(o.get("recon") or []), "difference": o.get("diff")})
@@ -170,6 +183,49 @@ def break_search(ctx, shim, r, per_font, pc, pt, only_aat, name, fonts=None):
                        ("AAT fonts (morx/kerx present): " if only_aat else "OpenType path: ") + BREAK_RULE, fonts)
 
 
+SYNTH_RULE = ("synthetic GSUB fonts (tools/flagslib.py::synth_recipe: 3-6 letters of Latin / Hebrew / private-use, i.e. both native "
+              "directions; contextual lookups of types 5 and 6, formats 1-3, with backtrack / lookahead, lookup flags over a random GDEF; "
+              "nested and stand-alone leaf lookups: single, multiple, DELETION = MultipleSubst to the empty sequence, in 1 font of 8 "
+              "ligatures) x random texts over the letters x directions l, r, t, b (so also reversed buffers with descending "
+              "clusters) x levels 0/1 x cluster numbering with gaps; ")
+
+
+def synth_make(r, g, flags, k):
+    return F.make_synth_shaping(r, g, flags)
+
+
+def break_synth_search(ctx, shim, r, nfonts, per_font, pc, pt):
+    metamorphic_search(ctx, shim, r, per_font, pc, pt, False, "break-safety-synth", F.verify_break, [0, 0, pc, pc | pt],
+                       "breaking at unflagged cluster starts changes the result",
+                       SYNTH_RULE + "then as break-safety-ot: cut at ALL unflagged cluster starts, re-shape the pieces, concatenate, compare",
+                       groups=F.synth_groups(r, nfonts), make=synth_make, classify=F.synth_known_class)
+
+
+def carry_search(ctx, shim, r, n, pc, pt):
+    """the flag-preservation contract of delete_glyph / delete_glyphs_inplace / merges as an oracle on the crate alone"""
+    lines = [F.carry_walk(r, pc, pt) for _ in range(n)]
+    outs = vlib.run_lines(shim, lines)
+    bad, dist = [], {}
+    for ln, o in zip(lines, outs):
+        d, seen = F.carry_eval(ln, o)
+        for k, v in seen.items():
+            dist[k] = dist.get(k, 0) + v
+        if d:
+            bad.append((len(ln), ln, d, o))
+    bad.sort()
+    for _, ln, d, o in bad[:3]:
+        ctx.violation(f"a cluster primitive does not hand the glyph flags on as its contract says: {d} ({len(bad)} of {len(lines)} walks)",
+                      {"stage": "search", "stream": "carry-exact", "request": ln, "what_differs": d, "observed": o[-1500:]})
+    ctx.note_search("carry-exact", len(lines), dist.get("del:backward", 0) + dist.get("delin:backward", 0), distribution=dist,
+                    deviations=len(bad),
+                    rule="random buffers whose masks already carry glyph flags (all 8 values of the DEFINED bits), ascending / descending / "
+                         "unordered clusters, levels 0-2; in/out walks of next / del / repl / repls / copy / merge / mergeout / utbo, or "
+                         "in-place merge / utb then delete_glyphs_inplace, through the hook; oracle (C03_delete_*): a glyph deleted alone in "
+                         "its cluster c after a kept glyph of cluster p > c -> the trailing run of p is renamed c and carries exactly the "
+                         "deleted glyph's flags; cluster survives / p < c -> nothing else changes; forward merge and merges: unchanged "
+                         "cluster => unchanged mask, renamed => non-flag bits kept (merges: no flags); non-trivial = backward case hit")
+
+
 def run(ctx):
     ctx.assumptions += [
         "theorems are about the Lean model of the flag setters of buffer.rs (_set_glyph_flags, _infos_find_min_cluster, "
@@ -188,7 +244,12 @@ def run(ctx):
                    lines=[F.flag_walk(r, pc, pt, adversarial=True) for _ in range(ctx.budget(10000, 200000))]
                          + [interior_case(r)[0] for _ in range(ctx.budget(10000, 200000))],
                    classify=F.classify_walk, canon=F.canon_panic)
+    rc = ctx.rng("carry")
+    ctx.correspond("flags-carry", lines=[F.carry_walk(rc, pc, pt) for _ in range(ctx.budget(10000, 200000))],
+                   classify=F.classify_walk, canon=F.canon_panic)
     interior_search(ctx, shim, ctx.rng("interior"), ctx.budget(20000, 300000))
+    carry_search(ctx, shim, ctx.rng("carry-exact"), ctx.budget(10000, 200000), pc, pt)
+    break_synth_search(ctx, shim, ctx.rng("break-synth"), ctx.budget(200, 4000), 12, pc, pt)
     break_search(ctx, shim, ctx.rng("break-ot"), ctx.budget(60, 1200), pc, pt, False, "break-safety-ot")
     break_search(ctx, shim, ctx.rng("break-aat"), ctx.budget(150, 4000), pc, pt, True, "break-safety-aat")
 
@@ -204,6 +265,11 @@ def replay(ctx, rp):
         print("pieces :", F.fmt_glyphs(o.get("recon") or []))
         print("difference:", o.get("diff"))
         return 1 if o["status"] in ("DIFF", "piecefail", "noresult") else 0
+    if rp.get("stream") == "carry-exact":
+        o = vlib.run_lines(shim, [rp["request"]], nproc=1)[0]
+        d = F.carry_eval(rp["request"], o)[0]
+        print("request:", rp["request"]); print("reply  :", o[-1500:]); print("deviation:", d)
+        return 1 if d else 0
     if rp.get("stream") == "interior-exact":
         o = vlib.run_lines(shim, [rp["request"]], nproc=1)[0]
         d = interior_eval(rp["request"], o)[0]
